@@ -430,7 +430,7 @@ PROPS = {
                       "of the solar-angle methods are converted by the harness's own expectation.",
         "lean_modules": ["Astral.Props.C19"],
         "theorems": ["Astral.C19.location_delegates", "Astral.C19.depression_setter",
-                     "Astral.C19.cli_output"],
+                     "Astral.C19.cli_output", "Astral.C19.setTimezone_rejected", "Astral.C19.setTimezone_accepted"],
         "groups": [G("corr_loc", "location", 3000, 60000), G("corr_loc", "cli", 300, 5000),
                    G("corr_geo", "setters", 1200, 20000)],
         "unproved": [],
